@@ -1207,6 +1207,89 @@ def _r21f(chk) -> None:
     chk.floor("R21f.rule_class_container_attributes", 30)
 
 
+SHARED_GETTERS = ("sets", "bracket_sets", "get_lexer_matchers", "lexer_matchers")
+IN_PLACE = ("add", "update", "discard", "remove", "pop", "clear", "difference_update", "intersection_update", "symmetric_difference_update",
+            "append", "extend", "insert", "sort", "reverse", "__setitem__")
+
+
+def _r21g(chk, repo) -> None:
+    """``Dialect.sets(name)`` hands out the live set of the (expanded, per-config shared) dialect
+    object; a rule that changes it changes what every rule after it -- and every later file linted
+    with the same config -- sees."""
+    n = 0
+    for pre in ("src/sqlfluff/rules/", "src/sqlfluff/utils/", "src/sqlfluff/core/rules/"):
+        for m in repo.iter_modules(pre):
+            if m.relpath.startswith("src/sqlfluff/utils/testing/") or "dialect" not in m.text:
+                continue
+            for q, f in m.functions():
+                getters = [c for c in calls_in(f) if isinstance(c.func, ast.Attribute) and c.func.attr in SHARED_GETTERS and "dialect" in norm(c.func.value)]
+                if not getters:
+                    continue
+                cfg = cfg_of(f)
+                gid = {id(c) for c in getters}
+                n += len(getters)
+
+                def from_getter(e, at) -> bool:
+                    if id(e) in gid:
+                        return True
+                    if isinstance(e, ast.Name):
+                        return any(o.kind == "expr" and id(o.expr) in gid and not o.path for o in origins(cfg, e, at))
+                    return False
+
+                for node in walk_local(f):
+                    bad = None
+                    if isinstance(node, ast.AugAssign) and from_getter(node.target, node) if isinstance(node, ast.AugAssign) and isinstance(node.target, ast.Name) else False:
+                        bad = f"`{short(node, 60)}` (augmented assignment works in place on a set / list)"
+                    elif isinstance(node, ast.Call) and isinstance(node.func, ast.Attribute) and node.func.attr in IN_PLACE and from_getter(node.func.value, cfg.stmt_of(node)):
+                        bad = f"`{short(node, 60)}`"
+                    elif isinstance(node, (ast.Assign, ast.Delete)):
+                        for t in (node.targets if isinstance(node, (ast.Assign, ast.Delete)) else []):
+                            if isinstance(t, ast.Subscript) and from_getter(t.value, node):
+                                bad = f"`{short(node, 60)}`"
+                    if bad:
+                        chk.fail(
+                            "R21g", node,
+                            f"{q} changes in place a collection it got from the dialect object ({bad}): the dialect is shared by every rule of the run, so what this rule leaves "
+                            "behind changes the result of the rules evaluated after it (and of later files)",
+                            detail=f"{q}: collection handed out by the dialect is changed in place",
+                        )
+    chk.count("R21g.dialect_collection_reads_in_rule_code", n)
+    chk.floor("R21g.dialect_collection_reads_in_rule_code", 5)
+
+
+def _r21h(chk, repo) -> None:
+    from ..flowutil import must_pass, param_origin
+
+    f = repo.fn("src/sqlfluff/core/rules/base.py", "RuleSet._expand_rule_refs")
+    cfg = cfg_of(f)
+    params = [a.arg for a in f.args.args if a.arg != "self"]
+    if len(params) < 2:
+        raise AnalysisError("R21h: _expand_rule_refs no longer takes (selectors, reference map); re-confirm the anchor by hand")
+    n = 0
+    for l in [l for l in walk_local(f) if isinstance(l, ast.For) and isinstance(l.target, ast.Name) and param_origin(cfg, l.iter, l) == params[0]]:
+        n += 1
+        v = l.target.id
+        consult = []
+        for st in [x for b in l.body for x in ast.walk(b) if isinstance(x, ast.stmt)]:
+            own = [x for x in ast.iter_child_nodes(st) if not isinstance(x, ast.stmt)]
+            for x in [y for o in own for y in ast.walk(o)]:
+                if isinstance(x, ast.Subscript) and isinstance(x.slice, ast.Name) and x.slice.id == v:
+                    consult.append(st)
+                if isinstance(x, ast.Call) and last_attr(x) in ("filter", "fnmatch", "fnmatchcase") and any(isinstance(a, ast.Name) and a.id == v for a in x.args):
+                    consult.append(st)
+                if isinstance(x, ast.Call) and last_attr(x) == "get" and x.args and isinstance(x.args[0], ast.Name) and x.args[0].id == v:
+                    consult.append(st)
+        chk.require(
+            bool(consult) and must_pass(cfg, l.body[0], l, consult) and not any(isinstance(b, (ast.Break, ast.Return)) for x in l.body for b in ast.walk(x)),
+            "R21h", l,
+            f"a selector can pass through the expander's loop without being looked up or globbed (a path through the body reaches the next selector without `<map>[{v}]` / a glob match on `{v}`): "
+            "such a selector selects nothing in `rules` and excludes nothing in `exclude_rules`, silently",
+            detail="_expand_rule_refs: every selector is looked up or matched as a glob",
+        )
+    chk.count("R21h.selector_loops", n)
+    chk.floor("R21h.selector_loops", 1)
+
+
 def run(chk) -> None:
     chk.rule("R21a", "the rule loop runs members of the rule pack only; the returned violations come from those rules or the noqa parser; every lint error carries the rule that is running")
     chk.rule("R21b", "in lint mode every rule is handed the tree that was passed in: tree rebinding and apply_fixes only under `fix`")
@@ -1214,6 +1297,10 @@ def run(chk) -> None:
     chk.rule("R21d", "get_rulepack instantiates the registered codes that are in the expansion of the allow-list and not in the expansion of the deny-list, one expander, one reference map, which is also the noqa map")
     chk.rule("R21e", "rule objects keep no state between evaluations except the reviewed (class, attribute) rows")
     chk.rule("R21f", "no class attribute of a rule class and no module-/class-level object in rules/, utils/, core/rules has a mutation site")
+    chk.rule("R21h", "the selector expander drops no selector: every path through the body of its loop over the given selectors looks the selector up in the reference map (direct entry) or matches it as a glob against the map's keys")
+    _r21h(chk, chk.repo)
+    chk.rule("R21g", "no rule changes in place a collection handed out by the shared dialect object (dialect.sets(..), bracket_sets(..), lexer matchers)")
+    _r21g(chk, chk.repo)
     _r21ab(chk)
     _r21c(chk)
     _r21d(chk)
@@ -1232,6 +1319,30 @@ ST05 = "src/sqlfluff/rules/structure/ST05.py"
 ST06 = "src/sqlfluff/rules/structure/ST06.py"
 
 VARIANTS: List[Variant] = [
+    Variant(
+        "expander-globs-only-starred-selectors", "src/sqlfluff/core/rules/base.py",
+        "            else:\n                matched_refs = fnmatch.filter(reference_map.keys(), r)\n",
+        "            elif \"*\" in r:\n                matched_refs = fnmatch.filter(reference_map.keys(), r)\n",
+        "R21h", "_expand_rule_refs", "seeded C21-3: `LT0?` / `L[TA]01` select and exclude nothing",
+    ),
+    Variant(
+        "quiet-expander-early-continue", "src/sqlfluff/core/rules/base.py",
+        "            else:\n                matched_refs = fnmatch.filter(reference_map.keys(), r)\n                for matched in matched_refs:\n                    expanded_rule_set.update(reference_map[matched])\n",
+        "                continue\n            matched_refs = fnmatch.filter(reference_map.keys(), r)\n            for matched in matched_refs:\n                expanded_rule_set.update(reference_map[matched])\n",
+        "QUIET", None, "R21h: early continue after the direct hit, the glob branch dedented",
+    ),
+    Variant(
+        "am08-unions-the-keyword-sets-in-place", "src/sqlfluff/rules/ambiguous/AM08.py",
+        '        return (\n            False\n            or "CROSS" in context.dialect.sets("reserved_keywords")\n            or "CROSS" in context.dialect.sets("unreserved_keywords")\n            or "CROSS" in context.dialect.sets("future_reserved_keywords")\n        )\n',
+        '        keywords = context.dialect.sets("unreserved_keywords")\n        keywords |= context.dialect.sets("reserved_keywords")\n        keywords |= context.dialect.sets("future_reserved_keywords")\n        return "CROSS" in keywords\n',
+        "R21g", "_cross_join_supported", "seeded C21-4: RF04 starts flagging identifiers once AM08 has run",
+    ),
+    Variant(
+        "quiet-am08-unions-the-keyword-sets-into-a-new-set", "src/sqlfluff/rules/ambiguous/AM08.py",
+        '        return (\n            False\n            or "CROSS" in context.dialect.sets("reserved_keywords")\n            or "CROSS" in context.dialect.sets("unreserved_keywords")\n            or "CROSS" in context.dialect.sets("future_reserved_keywords")\n        )\n',
+        '        keywords = set(context.dialect.sets("unreserved_keywords"))\n        keywords |= context.dialect.sets("reserved_keywords")\n        keywords |= context.dialect.sets("future_reserved_keywords")\n        return "CROSS" in keywords\n',
+        "QUIET", None, "R21g: the union is built in a fresh copy",
+    ),
     # ---- behaviour-preserving edits: the check must stay quiet -------------------------
     Variant(
         "quiet-rule-list-through-a-temp", LINTER,
